@@ -73,7 +73,7 @@ LIGHT_BINS = ("chk-events",)
 # ... but primary for these
 PRIMARY_BINS = {"C13": ("chk-events",), "C10": ("chk-events",), "C17": ("chk-events",)}
 # properties whose histories also run on an archetype with more than 65 536 entities
-PREFILL_PROPS = ("C01", "C02", "C09")
+PREFILL_PROPS = ("C01", "C02", "C08", "C09", "C12", "C13")
 
 
 def events_bin(features=()):
@@ -113,11 +113,15 @@ def hist_search(ctx, bins, features=(), traces=False, budget=None, prop_for_run=
         # every step costs O(len))
         if ctx.prop in PREFILL_PROPS and name in ("chk", "rel") and "wide" not in features:
             pcases, plen = (10, 30) if ctx.tier == "quick" else (max(10, sc(80)), 40)
-            for j, (world, arch) in enumerate([("WMix", 0), ("WSolo", 0)]):
+            # ... and mid-size shards (5 * 1024 creations: capacity beyond 4096, cheap enough for many
+            # more cases); in both, every second case drains the archetype and creates in it again
+            mcases = 60 if ctx.tier == "quick" else max(60, sc(600))
+            big = [("WMix", 0, 96, pcases), ("WSolo", 0, 96, pcases)] if ctx.prop in ("C01", "C02", "C09") else [("WMix", 0, 96, pcases)]
+            for j, (world, arch, k, pc) in enumerate(big + [("WMix", 0, 5, mcases), ("WSolo", 0, 5, mcases), ("WOne", 0, 5, mcases)]):
                 s = 1000 + j
                 seed = ctx.sub_seed(name, s)
                 base = os.path.join(work, "%s-%d" % (name, s))
-                jobs.append(((name, s, world, seed), [b, "hist", "--prop", prop_run, "--world", world, "--cases", str(pcases), "--len", str(plen), "--seed", str(seed), "--prefill", "%d,96" % arch,
+                jobs.append(((name, s, world, seed), [b, "hist", "--prop", prop_run, "--world", world, "--cases", str(pc), "--len", str(plen), "--seed", str(seed), "--prefill", "%d,%d" % (arch, k),
                                                       "--out", base + ".json", "--fail-out", base + ".ops", "--last-case", base + ".last"]))
     res = run_many(jobs, watchdog)
     agg = {"evaluations": 0, "ops_run": 0, "hashes": set(), "labels": {}, "counters": {}, "collateral": {}, "samples": [], "shards": 0,
